@@ -339,6 +339,9 @@ def stack_roundtrip_rules(prog, chk, pid, tier):
 
 
 def run(prog, chk, tier):
+    from rules import state as _state
+
+    _state.library_state_rules(prog, chk, "C08")
     chk.explanation = ("AesEncryptorMixin.encrypt's frame is interpreted in the byte-layout domain and its lengths in an interval x congruence domain: for every payload "
                        "length the padding is in [1,16] and the frame a multiple of 16. The parser's reader grammar, seek target, marker and CRC guards and returned value are "
                        "matched against that layout; customer-key insert / verify / blank and the SHA-256[:16] key derivation are checked by data provenance; the registered "
